@@ -15,7 +15,7 @@ RULE = ("probe configurations: a synthetic target near the binary (short trampol
 def run(tier, seed):
     r = core.Run("C13", tier, seed, "exploration", RULE)
     exe = core.build_native()
-    per = 400000 if tier == "thorough" else 40000
+    per = 4000000 if tier == "thorough" else 400000
     cases, sums, notes = core.run_sharded(exe, "c13", seed, tier, core.NCPU if tier == "thorough" else 5, extra={"n": per}, timeout=3000)
     r.add_cases(cases, "native")
     r.notes += notes
